@@ -56,7 +56,8 @@ RULE = ("requests over two fixed schemas (objects, lists, non-null, enum, input 
         "resolver outputs, with the stage at which each must be contained: generated valid operations (aliases, inline and "
         "named fragments, @skip/@include, mutations), every prefix of 7 seed documents, character and "
         "identifier mutants, hand-written schema-invalid documents, failing variable payloads, unknown operation "
-        "names; each under graphql_blocking / process_graphql_query default / graphql (asyncio) / ThreadPoolRuntime; "
+        "names; a share of all of them handed over as pre-parsed Documents with and without node locations, one response "
+        "key selected two or three times (several nodes per error); each under graphql_blocking / process_graphql_query default / graphql (asyncio) / ThreadPoolRuntime; "
         "plus index_to_loc / loc_to_index on generated texts with LF, CR, CRLF and out-of-range arguments, and "
         "coerce_float on finite/non-finite inputs; non-trivial = the response has errors or a planted failure, or "
         "the text has a line break; distinct = distinct canonical case")
@@ -99,6 +100,19 @@ def corpus():
     for i, (sn, t, w) in enumerate(G.EXEC_CORPUS):
         for cfg in G.CONFIGS:
             out.append(_resp_case(sn, t, w, config=cfg, label="exec-corpus"))
+    # errors with several nodes, requests handed over as pre-parsed Documents with and without locations
+    # (seeded C10-f: sorting nodes by loc breaks on two nodes without location)
+    for sn, text, w in G.MULTI_NODE_CORPUS:
+        for i, asdoc in enumerate([None, "loc", "noloc"]):
+            for cfg in (G.CONFIGS if asdoc == "noloc" else [G.CONFIGS[i]]):
+                c = _resp_case(sn, text, w, config=cfg, label="multi-node-error")
+                c["as_document"] = asdoc
+                out.append(c)
+    for sn, text, variables in G.MULTI_NODE_INVALID:
+        for i, asdoc in enumerate([None, "loc", "noloc", "noloc"]):
+            c = _resp_case(sn, text, {}, variables, None, G.CONFIGS[i], "multi-node-invalid")
+            c["as_document"] = asdoc
+            out.append(c)
     # one ResolverError instance raised in an earlier, longer request and again in this one
     long_doc = "{\n  s\n  b\n  o {\n           a\n  }\n}"
     shared = ["raise_shared", "not found", {"code": 404}]
@@ -144,6 +158,12 @@ def generate(rng, tier):
         for cfg in cfgs:
             cases.append(_resp_case(req["schema"], req["text"], req["world"], req["variables"],
                                     req["operation_name"], cfg, "valid"))
+    # a share of the requests is handed over as a pre-parsed Document (with / without node locations)
+    for k, c in enumerate(cases):
+        if k % 3 == 1:
+            c["as_document"] = "noloc"
+        elif k % 3 == 2 and k % 2 == 0:
+            c["as_document"] = "loc"
     # every prefix of the seed documents (+ of a few generated ones)
     seeds = list(G.TRUNCATION_SEEDS)
     for _ in range(1 if quick else 8):
@@ -199,6 +219,11 @@ def generate(rng, tier):
         cases.append(_resp_case("A", "query A($x: Int!) { arg(x: $x) } query B { a }", {}, {"x": "s"}, "C", cfg, "order"))
         cases.append(_resp_case("A", "query A($x: Int!) { arg(x: $x) } query B { a }", {}, {"x": "s"}, "A", cfg, "order"))
         cases.append(_resp_case("A", "query A($x: Int!) { arg(x: $x) } query B { a", {}, {"x": "s"}, "C", cfg, "order"))
+    # invalid documents, variable and directive cases as Documents too
+    for k, c in enumerate(cases):
+        if c.get("label") in ("invalid", "variables", "directive-variables", "opname", "order", "mutant") \
+                and "as_document" not in c and k % 4 == 0:
+            c["as_document"] = "noloc" if k % 8 == 0 else "loc"
     # index_to_loc / loc_to_index
     alphabet = ["a", "b", " ", "\n", "\n", "\r", "\r\n", "é", "\U0001f600", "\t"]
     for i in range(150 if quick else 3000):
@@ -289,8 +314,9 @@ def _plain(v):
 def _stage_verdicts(schema, case):
     st = {"parse": None, "validation": [], "opselect": None, "varcoercion": [], "rootcoercion": []}
     try:
-        doc = parse(case["text"])
+        doc = parse(case["text"], no_location=case.get("as_document") == "noloc")
     except GraphQLSyntaxError as e:
+        # (a text that does not parse cannot be handed over as a Document: it is submitted as text)
         st["parse"] = {"msg": _safe_str(e), "pos": e.position}
         return st, None, None
     try:
@@ -322,17 +348,29 @@ def _stage_verdicts(schema, case):
     return st, doc, op
 
 
+def _request_document(case):
+    """the request as the entry point receives it: the text, or -- for as_document cases whose text
+    parses -- a pre-parsed Document, with or without node locations"""
+    if case.get("as_document"):
+        try:
+            return parse(case["text"], no_location=case["as_document"] == "noloc")
+        except GraphQLSyntaxError:
+            pass
+    return case["text"]
+
+
 def _run_entry(schema, case, ctx):
     kw = dict(variables=decode_floats(case["variables"]), operation_name=case["operation_name"], context=ctx)
     cfg = case["config"]
+    request = _request_document(case)
     if cfg == "blocking":
-        return graphql_blocking(schema, case["text"], **kw)
+        return graphql_blocking(schema, request, **kw)
     if cfg == "default":
-        return process_graphql_query(schema, case["text"], **kw)
+        return process_graphql_query(schema, request, **kw)
     if cfg == "asyncio":
-        return _loop().run_until_complete(graphql(schema, case["text"], **kw))
+        return _loop().run_until_complete(graphql(schema, request, **kw))
     if cfg == "threadpool":
-        return process_graphql_query(schema, case["text"], runtime=_pool(), **kw).result(timeout=60)
+        return process_graphql_query(schema, request, runtime=_pool(), **kw).result(timeout=60)
     raise ValueError(cfg)
 
 
